@@ -1,4 +1,5 @@
 import LenaModel.Model.C11
+import LenaModel.Model.C11Spec
 /-! # C11 — the concrete analyses of the correspondence check
 
 `Model/C11.lean` is generic in the analysis that is split into bins.  To *execute* it against the real
@@ -47,6 +48,8 @@ def varErrName : C14.Err → String
   | .typeError => "Other:TypeError"
   | .assertionError => "Other:AssertionError"
   | .unmodelled => "unmodelled"
+  | .attributeError => "Other:AttributeError"
+  | .indexError => "Other:IndexError"
 
 section
 variable (names : List String)
@@ -342,6 +345,37 @@ gives the same result: `C06.bin1d_guess_independent`) -/
 def guessLo : Nat → Nat → Nat → Int := fun _ lo _ => (lo : Int)
 
 def fmtInt (i : Int) : String := toString i
+
+/-! ## a two-level split: `SplitIntoBins(FillComputeSeq(SplitIntoBins(analysis, …), IterateBins()), …)` -/
+
+/-- the inner split of a two-level analysis, followed by `IterateBins(select_bins=sel)` -/
+structure Inner where
+  edges : Edges Int
+  getter : Getter
+  vc : Slots
+  spec : Spec
+  sel : Sel
+
+def excNameWith {ε : Type} (f : ε → String) : Exc ε → String
+  | .lenaTypeError => "LenaTypeError"
+  | .lenaValueError => "LenaValueError"
+  | .lenaIndexError => "LenaIndexError"
+  | .lenaAttributeError => "LenaAttributeError"
+  | .indexError => "Other:IndexError"
+  | .typeError => "Other:TypeError"
+  | .keyError => "Other:KeyError"
+  | .assertionError => "Other:AssertionError"
+  | .unmodelled => "unmodelled"
+  | .inner e => f e
+
+/-- the analysis of the outer cells: the inner `SplitIntoBins`, its histograms iterated bin by bin -/
+def Inner.analysis (inn : Inner) : Analysis (SIB Int AccState) V (FVal Int V) (Exc IErr) :=
+  SIB.analysis names (inn.spec.analysis names) (argVar inn.getter inn.vc) guessLo
+    (iterateAfter names inn.sel.onData (cellToString names fmtInt) (encEdges V.int))
+
+/-- the inner `SplitIntoBins` as constructed -/
+def Inner.init (inn : Inner) : Except (Exc IErr) (SIB Int AccState) :=
+  SIB.new names (some (accInit names)) true inn.edges
 
 end
 end Lena.C11.Conc
